@@ -47,7 +47,7 @@ Proof. eexists; eexists; eexists. split; [vm_compute; reflexivity | split; [vm_c
      as one closed theorem.)
    * C01_search_lo_tie / _hi_tie: the range expressions of search() regenerated from the source equal the model's.
    Also kept: the arithmetic core lemmas the composition rests on.""",
-   imports=["Base", "PlaModel", "PlaSpec", "GenLeaf", "IndexModel", "IndexProofs", "IdxFed", "IdxSeg", "IdxBlock", "IdxLevel", "IdxSearch0", "IdxRoute", "IdxChain", "IdxMain", "IdxBeyond", "IdxFuel", "LeafTie", "FloatOkLemmas", "FloatOk"],
+   imports=["Base", "PlaModel", "PlaSpec", "GenLeaf", "IndexModel", "IndexProofs", "IdxFed", "IdxSeg", "IdxBlock", "IdxLevel", "IdxSearch0", "IdxRoute", "IdxChain", "IdxMain", "IdxBeyond", "IdxFuel", "IdxGapPla", "IdxGap", "IdxGapChain", "IdxGapMain", "IdxGapRefute", "IdxGapHeight", "LeafTie", "FloatOkLemmas", "FloatOk"],
    entries=[("C01_search", "@check", "C01_search"),
             ("C01_search0", "@check", "C01_search0"),
             ("C01_eval_ok_float", "@check", "eval_ok_float_std"),
@@ -60,17 +60,21 @@ Proof. eexists; eexists; eexists. split; [vm_compute; reflexivity | split; [vm_c
             ("C01_round_div_half", "IndexProofs.v", "round_div_half")]),
  "C02": dict(
    header="""   C02 — lower_bound inside the returned range equals the global lower_bound.
-   PROVED on the model for every sorted integer-key array, Epsilon >= 1, any chunk count:
+   PROVED END TO END on the model for every sorted integer-key array, Epsilon >= 1, EVERY EpsilonRecursive (0, linear
+   scan, binary search), any chunk count, EVERY query below the sentinel:
+   * C02_search: build c data = Ok ix, q < sentinel ==> search c ix q = Ok a with 0 <= lo <= lb data q <= hi <= n,
+     hi - lo <= 2*eps + 2, lo <= pos  (below the first key, present, in a gap, after a run of duplicates, above the last key);
+   Earlier partial results are kept:
    * C02_search0: EpsilonRecursive = 0, EVERY query below the sentinel (below the first key, present, in a gap,
      after a run of duplicates, above the last key): 0 <= lo <= lb data q <= hi <= n, hi-lo <= 2eps+2;
    * C02_search_scan: every EpsilonRecursive on the linear-scan path (<= the translated threshold), EVERY query;
    * C02_search_partial: every EpsilonRecursive (incl. the binary-search path), every query q <= last key;
    * C02_lb_range_eq: hence lower_bound restricted to [lo,hi) IS the global lower_bound (the property's wording).
    Same hypotheses as C01 (float_ok is the only non-structural one).
-   NOT proved: last < q < sentinel on the binary-search routing path (EpsilonRecursive above the threshold) --
-   three structural facts about the extra (last+1) segment are missing (IdxBeyond.v, final comment); judged.""",
-   imports=["Base", "PlaModel", "PlaSpec", "GenLeaf", "IndexModel", "IndexProofs", "IdxFed", "IdxSeg", "IdxBlock", "IdxLevel", "IdxSearch0", "IdxRoute", "IdxChain", "IdxMain", "IdxBeyond", "IdxFuel", "LeafTie", "FloatOkLemmas", "FloatOk"],
-   entries=[("C02_search0", "@check", "C02_search0"),
+   The only non-structural hypothesis is float_ok (see C01).""",
+   imports=["Base", "PlaModel", "PlaSpec", "GenLeaf", "IndexModel", "IndexProofs", "IdxFed", "IdxSeg", "IdxBlock", "IdxLevel", "IdxSearch0", "IdxRoute", "IdxChain", "IdxMain", "IdxBeyond", "IdxFuel", "IdxGapPla", "IdxGap", "IdxGapChain", "IdxGapMain", "IdxGapRefute", "IdxGapHeight", "LeafTie", "FloatOkLemmas", "FloatOk"],
+   entries=[("C02_search", "@check", "C02_search"),
+            ("C02_search0", "@check", "C02_search0"),
             ("C02_search_scan", "@check", "C02_search_scan"),
             ("C02_search_partial", "@check", "C02_search_partial"),
             ("C02_lb_range_eq", "IndexProofs.v", "lb_range_eq"),
@@ -92,9 +96,20 @@ Proof. vm_compute. reflexivity. Qed.
    * C07_build_level_shrinks / C07_build_never_out_of_fuel: every upper level is strictly smaller than the one
      below and the level loop terminates -- this uses the translated 2^15 threshold and the cap of 20 chunks;
    * the window arithmetic on the translated macros.
-   NOT proved: the trace bound for last < q < sentinel (the shared-key case gives 2eps_r+4 on paper); judged.""",
-   imports=["Base", "PlaModel", "PlaSpec", "GenLeaf", "IndexModel", "IndexProofs", "IdxFed", "IdxSeg", "IdxBlock", "IdxLevel", "IdxSearch0", "IdxRoute", "IdxChain", "IdxMain", "IdxBeyond", "IdxFuel", "LeafTie", "FloatOkLemmas", "FloatOk"],
+   * C07_route_trace_bsearch: on the binary-search routing path the bound 2*eps_r+3 holds for EVERY query;
+   * C07_route_trace_wide: on both paths, every query: 2*eps_r+3, except queries above the last key on the
+     linear-scan path, where 2*eps_r+4 is proved;
+   * C07_refuted: that exception is REAL -- a concrete index (uint16 keys, Epsilon = EpsilonRecursive = 1, n = 140,
+     last key = max-2, q = last+1) on which level 1 reads 6 = 2*eps_r+4 segments; witness evaluated by vm_compute on the
+     model with every hypothesis (float_ok included) checked, and reproduced on the real code through hook H2.
+     Recorded as known finding c07_scan_beyond_last (the answer is still correct: C02_search);
+   * C07_height_closed_form: sequential builds: (2eps_r+1)^(height-2) + (2eps_r+1) <= (n+1)*2eps_r.""",
+   imports=["Base", "PlaModel", "PlaSpec", "GenLeaf", "IndexModel", "IndexProofs", "IdxFed", "IdxSeg", "IdxBlock", "IdxLevel", "IdxSearch0", "IdxRoute", "IdxChain", "IdxMain", "IdxBeyond", "IdxFuel", "IdxGapPla", "IdxGap", "IdxGapChain", "IdxGapMain", "IdxGapRefute", "IdxGapHeight", "LeafTie", "FloatOkLemmas", "FloatOk"],
    entries=[("C07_route_trace_partial", "@check", "C07_route_trace_partial"),
+            ("C07_route_trace_bsearch", "@check", "C07_route_trace_bsearch"),
+            ("C07_route_trace_wide", "@check", "C07_route_trace_wide"),
+            ("C07_refuted", "IdxGapRefute.v", "C07_refuted"),
+            ("C07_height_closed_form", "@check", "height_closed_form"),
             ("C07_upper_count", "@check", "upper_count"),
             ("C07_build_level_shrinks", "@check", "build_level_shrinks"),
             ("C07_build_never_out_of_fuel", "IdxFuel.v", "build_never_out_of_fuel"),
